@@ -59,7 +59,10 @@ def exhaustive_cases():
     atoms = ['L0', 'L1', 'L2',
              'rem U r0|ph|s|2|g0=e0:0:s:0;g1=z:5:s:1', 'rem U f0|ph|s|2|g0=y:0:s:0;g1=z:5:s:1', 'rem U f0|ph|s|1|g0=y:0:s:0',
              'rem H r0|ph|s|1|g0=e0:0:s:0', 'rem H f0|ph|s|1|g0=y:0:s:0',
-             'rem C r0|ph|s|3|g0=e0:0:s:0', 'rem C f0|ph|s|3|g0=y:0:s:0', 'rem C f1|ph|s|3|g0=y:0:s:0 U f0|ph|s|1|g0=y:0:s:0']
+             'rem C r0|ph|s|3|g0=e0:0:s:0', 'rem C f0|ph|s|3|g0=y:0:s:0', 'rem C f1|ph|s|3|g0=y:0:s:0 U f0|ph|s|1|g0=y:0:s:0',
+             # a SYNC merged with a backlog: the peer's run named finished AND, with an older state, updated
+             'rem C f0|ph|s|3|g0=y:0:s:0;g1=z:5:s:1;g2=w:6:s:2 U f0|ph|s|2|g0=y:0:s:0;g1=z:5:s:1',
+             'rem H f0|ph|s|2|g0=y:0:s:0;g1=z:5:s:1 U f0|ph|s|2|g0=y:0:s:0;g1=z:5:s:1']
     for n in (2, 3, 4):
         for seq in itertools.product(atoms, repeat=n - 1):
             ops, t = [], 0
@@ -79,6 +82,7 @@ def per_case(case, rd, outs, r):
     r.count('ops_local', sum(1 for o in case.ops if o.startswith('ev')))
     prev_tab = []
     told_finished = set()      # ids this instance was told (or itself reported) are finished
+    slots = 0                  # places of the finished-run memory they can have taken (a foreign id and the local run it stood for)
     for k, (op, out) in enumerate(zip(case.ops, outs)):
         if out == 'X':
             r.violations.append(Violation('exception-escaped', f'exception escaped at {op[:60]}', {**case.to_json(), 'failing_step': k}))
@@ -86,7 +90,7 @@ def per_case(case, rd, outs, r):
         tab = [x.rstrip('!').split('|') for x in _parse_table(out)]
         # a run the instance has seen finish — also one finished by a peer under a foreign id — must not be active
         # again (with the memory enabled and large): it would block the singleton from ever restarting
-        if case.cache >= 1000:
+        if case.cache > 0:
             if op.startswith('rem '):
                 cur_l = None
                 for x in op.split()[1:]:
@@ -94,9 +98,13 @@ def per_case(case, rd, outs, r):
                         cur_l = x
                     elif cur_l in ('C', 'H'):
                         told_finished.add(x.split('|')[0])
+                        slots += 2
             for part in ('C[', 'H['):
                 i = out.index(part) + 2
-                told_finished |= {y.split('|')[0] for y in out[i:out.index(']', i)].split()}
+                now_fin = {y.split('|')[0] for y in out[i:out.index(']', i)].split()}
+                slots += len(now_fin - told_finished)
+                told_finished |= now_fin
+        if 0 < case.cache and slots <= case.cache:
             back = [x for x in tab if x[0] in told_finished and (x[1], x[2]) in {(ph, p['name']) for ph, p in singles}]
             if back:
                 r.violations.append(Violation('finished-singleton-run-active',
